@@ -52,18 +52,39 @@ def suite_c03(r, n):
                 outcome, want = "a%d" % ty, "app %d" % ty
             if m["oneway"]: want = "void"
             mkey = "%s/%s_%s" % (dkey[0], dkey[1], m["name"])
-            payload = "%s,%s|%s|%s" % (transport, proto, dump_val(args), outcome)
+            k1, k2, k3 = r.pick([0, 0, 1, 2, 3]), r.pick([0, 0, 1, 2]), r.pick([0, 0, 1, 2, 3])
+            payload = "%s,%s|%s|%s|mw=%d,%d,%d" % (transport, proto, dump_val(args), outcome, k1, k2, k3)
             jobs.append(("rpc", "p%d" % p.pid, "%s/%s" % skey, mkey, payload))
             line = "g3 %s %s %d %s %s" % (defs, mkey, 1 if m["oneway"] else 0, dump_val(args), outcome)
             expect = "calls=1 args=%s cid=ok result=%s" % (args_dump(p, m, args), want)
-            meta.append((p, line, expect, "%s:%s:%s:%s%s%s" % (transport, proto, kind, "oneway" if m["oneway"] else "twoway", ":inherited" if inherited else "", ":void" if m["ret"] is None else "")))
+            # C16 through the emitted wiring: observing middleware at the client constructor, the provider and the
+            # processor constructor; the model ops of C16 (Driver.Middleware `mww client`, `mwp`) give the traces
+            specs = lambda k: ",".join(["o"] * k) if k else "."
+            cbase = "k" if (kind == "v" or m["oneway"]) else "f"
+            pbase = "k" if kind == "v" else "f"
+            mwlines = ("mww client %s %s %s a" % (specs(k1), specs(k2), cbase), "mwp m %s . %s a" % (specs(k3), pbase))
+            def trace(n, e, res):
+                evs = ["e%d:a" % i for i in range(n - 1, -1, -1)] + ["b:a"] + ["x%d:%s/%s" % (i, res, e) for i in range(n)]
+                return ";".join(evs) + " R=" + res + "/" + e
+            mwexpect = (trace(k1 + k2, "-" if cbase == "k" else "B", "a|"), trace(k3, "-" if pbase == "k" else "B", "a|m0"))
+            meta.append((p, line, expect, "%s:%s:%s:%s%s%s" % (transport, proto, kind, "oneway" if m["oneway"] else "twoway", ":inherited" if inherited else "", ":void" if m["ret"] is None else ""), mwlines, mwexpect, (k1, k2, k3)))
     res, err = build_and_run(progs, jobs)
     if res is None:
         OracleFail("valid IDL with services was not compiled to Go that builds", {"op": "build", "detail": err[:3000]})
         Stat("evaluations"); Finish(); return
     if err: OracleFail("the runner crashed while executing generated code", {"op": "run", "detail": err[:2000]})
-    for (p, line, expect, tag), real in zip(meta, res):
+    for (p, line, expect, tag, mwlines, mwexpect, ks), real in zip(meta, res):
         if real is None: real = "no-result"
+        segs = real.split(" || ")
+        real = segs[0]
+        if len(segs) == 3:
+            ctrace, ptrace = segs[1], segs[2]
+            Case(mwlines[0], "ok " + ctrace)
+            Case(mwlines[1], "ok m=" + ptrace.replace(" ", "~") + " zz=unknown")
+            Stat("mw:%d+%d/%d" % ks)
+            if ctrace != mwexpect[0] or ptrace != mwexpect[1]:
+                OracleFail("middleware did not intercept the generated call exactly once in the declared order (later-listed wraps earlier, provider wraps constructor)",
+                           {"op": "g16", "case": tag, "line": mwlines[0], "got": "client: %s | processor: %s" % (ctrace, ptrace), "want": "client: %s | processor: %s" % mwexpect, "mw": "ctor=%d provider=%d processor=%d" % ks})
         Case(line, real)
         for t in tag.split(":"): Stat("dim:" + t)
         Stat("evaluations")
